@@ -88,6 +88,9 @@ def run_core(ctx, mode):
             # shallow copy of the domain: the edited action must behave as the edited formula
             c["edit"] = gen_core.edit_literal(rng, _params_of(c["tree"]), c["tree"])
         rc.append(c)
+    if mode == "pre":
+        # preconditions made of several (in)equalities between the parameters, calls with repeated objects
+        rc += [gen_core.gen_eq_case(ctx.seed, 60000 + i) for i in range(60 if quick else 1000)]
     tf2 = ctx.drive("core", rc, hashseeds=hashseeds, opts={"snaps": True})
     ctx.validate(tf2, {c["id"]: c for c in rc}, driver="core", opts={"snaps": True})
     (_count_nontrivial_pre if mode == "pre" else _count_nontrivial_eff)(tf2, ctx)
